@@ -77,9 +77,14 @@ PROJ = {("FB", "M"): "bld::mfield(&r)", ("FB", "P"): "bld::pfield(&r)", ("FS", "
         ("VB", "M"): "bld::mvariant(&r)", ("VB", "P"): "bld::pvariant(&r)", ("VS", "M"): "bld::mvariants(&r)", ("VS", "P"): "bld::pvariants(&r)",
         ("TB", "M"): "bld::mtype(&r)", ("TB", "P"): "bld::ptype(&r)"}
 
+PROJ_P = {"FB": "bld::mfield_p(&r)", "FS": "bld::mfields_p(&r)", "VB": "bld::mvariant_p(&r)", "VS": "bld::mvariants_p(&r)", "TB": "bld::mtype_p(&r)"}
+
 def positive_program(cases, base):
     L = [PRELUDE, "fn main() {"]
     for i, c in enumerate(cases):
+        if c["f"] == "M":      # compile-time form: also the value after conversion to the portable form
+            L.append("    { let r = %s; bld::out2(%d, %s, %s); }" % (expr(c), base + i, PROJ[(c["b"], c["f"])], PROJ_P[c["b"]]))
+            continue
         L.append("    { let r = %s; bld::out(%d, %s); }" % (expr(c), base + i, PROJ[(c["b"], c["f"])]))
     L.append("}")
     return "\n".join(L) + "\n"
